@@ -4,6 +4,14 @@ import json, os
 V = os.path.dirname(os.path.dirname(os.path.abspath(__file__)))
 
 CLAIMED = {
+ 'C02': dict(
+  text='Static decision of the structural clauses of the finite-map property on every instantiated member of HashMap/HashDic/Set/Map: chain '
+       'unlink re-links the successor and decrements the count on all paths, equality is lookup-based (order independent), every table size is '
+       '2^k+SKIP with binOf/rehash mask agreement, rehash re-links every node and restores the count, no bucket index or chain pointer survives a '
+       'table replacement, HashMap handle refcount protocol, Map inserts at the decoded indexOf position, comparators do not subtract integers, Set is thin. '
+       'Correctness of the hand-written binary search is not decided.',
+  technique='CFG typestate dataflow (unlink/re-link, stale table-derived values), constant evaluation of table geometry, guard/dominance queries over instantiated templates',
+  ref='DESIGN.md section 3 C02'),
  'C01': dict(
   text='Static decision, on every instantiated member of Array/Stack/Queue for int, String, Var and nested-array elements, of the structural '
        'clauses behind memory safety and exactly-once element lifetime: no argument that may alias an element is used after the storage was '
